@@ -117,6 +117,56 @@ SECOND_OPINION = os.environ.get("PYVC_SECOND_OPINION") == "1"
 CVC5 = "/usr/bin/cvc5"
 
 
+def _pb_to_arith(text):
+    """z3 prints exactly-k constraints as ((_ pbeq k c1 .. cn) a1 .. an), which is not SMT-LIB:
+    rewritten to (= (+ (ite a1 c1 0) .. (ite an cn 0)) k) for the second solver"""
+    out = []
+    i = 0
+    key = "((_ pbeq "
+    while True:
+        j = text.find(key, i)
+        if j < 0:
+            out.append(text[i:])
+            break
+        out.append(text[i:j])
+        k = text.index(")", j)
+        nums = text[j + len(key):k].split()
+        bound, coeffs = nums[0], nums[1:]
+        pos = k + 1
+        args = []
+        while len(args) < len(coeffs):
+            while text[pos].isspace():
+                pos += 1
+            start = pos
+            if text[pos] == "(":
+                depth = 0
+                while True:
+                    ch = text[pos]
+                    if ch == "|":
+                        pos = text.index("|", pos + 1)
+                    elif ch == "(":
+                        depth += 1
+                    elif ch == ")":
+                        depth -= 1
+                        if depth == 0:
+                            break
+                    pos += 1
+                pos += 1
+            elif text[pos] == "|":
+                pos = text.index("|", pos + 1) + 1
+            else:
+                while not text[pos].isspace() and text[pos] not in "()":
+                    pos += 1
+            args.append(text[start:pos])
+        while text[pos].isspace():
+            pos += 1
+        assert text[pos] == ")"
+        terms = " ".join("(ite %s %s 0)" % (a, c) for a, c in zip(args, coeffs))
+        out.append("(= (+ %s 0) %s)" % (terms, bound))
+        i = pos + 1
+    return "".join(out)
+
+
 def second_opinion(smt2, stats, tlimit_ms=4000):
     """run cvc5 on a query z3 found unsat; returns 'unsat' | 'sat' | 'none' (no verdict)"""
     import subprocess
@@ -124,7 +174,7 @@ def second_opinion(smt2, stats, tlimit_ms=4000):
     so = stats.second
     try:
         p = subprocess.run([CVC5, "--lang=smt2", "--tlimit=%d" % tlimit_ms, "--full-saturate-quant"],
-                           input="(set-logic ALL)\n" + smt2, capture_output=True, text=True, timeout=tlimit_ms / 1000.0 + 5)
+                           input="(set-logic ALL)\n" + _pb_to_arith(smt2), capture_output=True, text=True, timeout=tlimit_ms / 1000.0 + 5)
         out = p.stdout.strip().splitlines()
         v = out[0].strip() if out else "none"
     except Exception:  # noqa
